@@ -35,7 +35,7 @@ RULE = (
     "(table, flavour); C 'collections' (every ordered selection of 1..3 genes from a menu of coding/non-coding/two-"
     "transcript genes x listing order x locus-tag prefix x step x flavour x seed); D (two collections in one call, "
     "two-transcript genes with every pair of CDS contents, CDS without a complete codon).  Each case is exported twice "
-    "with the same non-zero seed from different global random states.  Non-trivial = minus strand, or >=2 blocks, or a "
+    "with the same seed (7, 0, 2**31) from different global random states.  Non-trivial = minus strand, or >=2 blocks, or a "
     "partial/pseudo CDS, or start frame != 0, or >=2 genes."
 )
 ASSUMPTIONS = [
@@ -56,7 +56,7 @@ ASSUMPTIONS = [
     "eukaryotic flavour: mRNA + CDS per coding transcript, prokaryotic: CDS only (docstring of collection_to_tbl)",
     "locus tags: the locus_tag qualifiers of the gene rows, in file order, are <prefix>_<n> with the requested prefix "
     "(when one is requested), n strictly increasing by exactly the step; the starting value is not demanded",
-    "reproducibility is demanded only for a fixed non-zero seed within one interpreter (PYTHONHASHSEED fixed by the "
+    "reproducibility is demanded for every fixed seed - 0 included - within one interpreter (PYTHONHASHSEED fixed by the "
     "launcher); what the writer does to the caller-visible global `random` state is recorded in the evidence counters "
     "(random_state:*), not judged",
     "genomes are upper-case ACGT (plus one lower-case slice in the thorough tier); tbl2asn-level validity is out of reach",
@@ -260,13 +260,13 @@ def world_C(tier):
         seqs = [p for k in (1, 2) for p in itertools.permutations(range(n), k)] + list(itertools.permutations(range(4), 3))
         prefixes = ["LT", "AB_C9", None]
         steps = [1, 5, 10]
-        seeds = [7]
+        seeds = [7, 0]  # (0 is a seed like any other: `if random_seed:` used to ignore it)
         tables = [1]
     else:
         seqs = [p for k in (1, 2, 3) for p in itertools.permutations(range(n), k)]
         prefixes = ["LT", "AB_C9", None]
         steps = [1, 5, 10]
-        seeds = [7, 2 ** 31]
+        seeds = [7, 0, 2 ** 31]
         tables = [0, 11]
     for picks in seqs:
         for rev in (False, True):
@@ -274,6 +274,8 @@ def world_C(tier):
                 continue
             coll = multi_gene_coll(picks, rev)
             for prefix, step, fl, seed, table in itertools.product(prefixes, steps, ("EUKARYOTIC", "PROKARYOTIC"), seeds, tables):
+                if tier == "quick" and seed == 0 and step != 1:
+                    continue
                 yield "C", {"colls": [coll], "table": table, "flavor": fl, "prefix": prefix, "step": step, "seed": seed,
                             "lab": None if prefix is None else "lab"}
 
